@@ -52,10 +52,11 @@ impl Serialize for MemoryLocation {
             MemoryLocation::CsrRegisterValueOffset(csr, offset) => {
                 serializer.serialize_str(&format!("csro+{}+{}", csr.value(), offset))
             }
+            // Sign and magnitude; the magnitude of i32::MIN does not fit an i32
             MemoryLocation::StackOffset(i) => serializer.serialize_str(&format!(
                 "so{}{}",
                 if i < &0 { "-" } else { "+" },
-                i.abs()
+                i.unsigned_abs()
             )),
         }
     }
@@ -76,12 +77,10 @@ impl Visitor<'_> for MemoryLocationVisitor {
     {
         if let Some(so) = v.strip_prefix("so") {
             let (sign, num) = so.split_at(1);
-            let num = num.parse::<i32>().map_err(de::Error::custom)?;
-            Ok(MemoryLocation::StackOffset(if sign == "-" {
-                -num
-            } else {
-                num
-            }))
+            let num = num.parse::<i64>().map_err(de::Error::custom)?;
+            let offset = i32::try_from(if sign == "-" { -num } else { num })
+                .map_err(de::Error::custom)?;
+            Ok(MemoryLocation::StackOffset(offset))
         } else if let Some(csr) = v.strip_prefix("csr+") {
             let csr = csr.parse::<u32>().map_err(de::Error::custom)?;
             Ok(MemoryLocation::CsrRegister(CsrImm::new(csr)))
